@@ -53,7 +53,8 @@ class C04(Check):
                   "same membership, key and counter discipline afterwards), by the harness's own monitor of command start/end per checkable, by "
                   "a quiescent snapshot after every scenario, and by comparing UpdateNextCheck with the exact model on tens of thousands of "
                   "(now, offset, interval) triples under the virtual clock; the specification predicate is evaluated on the implementation's "
-                  "own observations. PARTIAL: real-time liveness (a due check starts as soon as a slot is free) is only measured (latency "
+                  "own observations, including at EVERY logged section: once a pause / resume / activation / deactivation has completed, a checkable that is "
+                  "not this node's to schedule is in neither set and one that is, is in one (clauses scheduled_while_not_responsible / dropped_from_schedule). PARTIAL: real-time liveness (a due check starts as soon as a slot is free) is only measured (latency "
                   "histogram, overdue bound), not proved")
     level_note = ("Trusted: Lean kernel (+ propext, Classical.choice, Quot.sound), sampled trace validation in real time (seeded scenarios; thread "
                   "schedules are not reproducible), harness/driver, std::mutex and the thread pool. Not modelled: interleavings finer than a "
@@ -222,7 +223,7 @@ class C04(Check):
         res.exhaustive = False
         res.rule = ("corpus/C04/*.ops, then from one PRNG seeded by VERIF_SEED: 40 000 (300 000 thorough) UpdateNextCheck comparisons under the "
                     "virtual clock (now small / medium / around 1.7e9 s, intervals <= 1 s, = 1 s, just above, whole seconds, minutes, arbitrary; "
-                    "offsets 0 .. 2^31; hard and soft-with-result state) and 15 (24) real-time scenarios of 5 s (75 s) plus 2 (6) scripted wake-up probes (helper / plugin-process variant), 5 (6) at a time, one process "
+                    "offsets 0 .. 2^31; hard and soft-with-result state) and 15 (24) real-time scenarios of 5 s (75 s) plus 2 (6) scripted wake-up probes (helper / plugin-process variant) and 1 (2) skip_pause probes (an OnNextCheckChanged slot pauses a checkable from inside the window in which the scheduler's skip path has released its mutex; it must stay out of both sets), 5 (6) at a time, one process "
                     "each: 5-300 hosts plus up to n/4 created at run time, max_concurrent_checks in {1, 2, 4, 16}, check intervals 30 ms - 3 s "
                     "(some above 1 s so that the offset adjustment is live), retry intervals, max_check_attempts 1-3, 10 % with active checks "
                     "disabled, 10 % with a closed check period, commands that sleep (mean chosen for ~40 % load), return OK / alternate / fail / "
